@@ -434,6 +434,36 @@ impl SymbolTable {
     }
 }
 
+/// Verification hooks, compiled only with the cargo feature `oq3_verif`.
+#[cfg(feature = "oq3_verif")]
+impl SymbolTable {
+    /// Public wrapper of the crate-private `enter_scope`, so that operation
+    /// histories can be driven through the API without source text.
+    pub fn verif_enter_scope(&mut self, scope_type: ScopeType) {
+        self.enter_scope(scope_type)
+    }
+
+    /// Number of currently open scopes (1 when only the global scope is open).
+    pub fn verif_scope_depth(&self) -> usize {
+        self.number_of_scopes()
+    }
+
+    /// Total number of symbols ever created in this table.
+    pub fn verif_num_symbols(&self) -> usize {
+        self.all_symbols.len()
+    }
+
+    /// The `SymbolId` with ordinal `n`. (`SymbolId` has no public constructor.)
+    pub fn verif_symbol_id(&self, n: usize) -> SymbolId {
+        SymbolId(n)
+    }
+
+    /// The ordinal of a `SymbolId`.
+    pub fn verif_symbol_ordinal(&self, id: &SymbolId) -> usize {
+        id.0
+    }
+}
+
 impl Default for SymbolTable {
     fn default() -> Self {
         Self::new()
